@@ -5,6 +5,11 @@ HERE = os.path.dirname(os.path.abspath(__file__))
 ALL = ["C%02d" % i for i in range(1, 19)]
 
 CHECKS = {
+ "C17": dict(
+   technique="TLA+ model XtChunker of the parser binding's resource protocol model-checked with TLC; lifecycle/read-handler/cut hook events of real YAML runs validated by TLC with the invariants checked at every step",
+   text="TLC explores every interleaving of reader outcomes (short reads, errors, over-reporting), parse errors and early drops of the chunker and checks no use after free, free order, event pairing, copy lengths within both buffers, cuts within the capture buffer and no leak at the end; the hook events of real YAML runs (many inputs, read sizes, reader errors, over-reporting readers of every small excess, detection's early drop, panics unwinding through the handler) are validated by TLC against the same model.",
+   note="Protocol level: what crosses the unsafe boundary. Byte-level accesses inside unsafe-libyaml are not visible to the specification; a crash of the recorder process is reported as a violation.",
+   design_ref="DESIGN.md 4.6, 6 (C17), 9"),
  "C15": dict(
    technique="TLA+ model XtCli (stdout buffer, per-input flush, bail paths) model-checked with TLC; argument vectors with a failing input at every position replayed on the real binaries (pipe and file)",
    text="TLC checks in every state of the command-line model that the frames of all finished inputs are on the file descriptor at any exit and that nothing is left buffered at exit 0; every argument vector of up to 3 (thorough: 4) tokens over inputs of several sizes and failure kinds, plus random lists of up to 6 inputs, is run on the real binaries with stdout a pipe and a regular file, and stdout must equal the library translations of the inputs the model says are finished (plus at most a prefix of the failing input's output).",
